@@ -343,3 +343,57 @@ def c03_m_blockring_delete(ctx, v):
             seen += 1
         v.covers_total += 1
         v.covers_sat += 1 if seen else 0
+
+
+def c03_m_block_reorg_step(ctx, v):
+    """Block::on_chain_reorganization(utxoset, flag) for a block with 0..=2 transactions and an
+    arbitrary previous flag: every transaction of the block is applied / reverted with the same
+    flag, in block order, and afterwards the block's own in_longest_chain equals the flag — the
+    per-block flag that the shared-ancestor search of add_block reads, so it must describe the
+    same chain as the by-height index and the ledger after every wind and unwind."""
+    body = ctx.body(r"block::<impl at [^>]*>::on_chain_reorganization$")
+    ok = 0
+    for n in (0, 1, 2):
+        ex = ctx.executor(loop_bound=n + 3, inline="auto", no_inline=[r"Transaction::on_chain_reorganization$", r"to_hex", r"fmt"])
+        ex.pure = [r".*"]
+        flag = z3.Bool("longest_chain")
+        before = z3.Bool("in_longest_chain_before")
+        txs = S.Seq([ctx.mk_struct(ex, "Transaction", "tx%d" % i) for i in range(n)], "Transaction")
+        blk = ctx.mk_struct(ex, "Block", "block", transactions=txs, in_longest_chain=before)
+        cell = S.Cell(blk)
+        outs = ex.run(body, [S.Ref(cell, (), True), S.Ref(S.Cell(S.Opaque("utxoset", "AHashMap")), (), True), flag], S.State())
+        v.paths += len(outs)
+        for o in outs:
+            if o.kind in ("unsupported", "unwound", "path-limit"):
+                return v.undecided("n=%d %s %s" % (n, o.kind, o.info))
+            if o.kind == "panic":
+                v.queries += 1
+                if ex.feasible(o.pc):
+                    v.fail("n=%d: Block::on_chain_reorganization panics: %s" % (n, o.info))
+                continue
+            if o.kind != "return":
+                continue
+            post = ex.deref_value(o.state.frames[0].locals["_1"].v)
+            after = post.fields[ctx.field_index("Block", "in_longest_chain")]
+            after = after if z3.is_bool(after) else (after.bv != 0)
+            v.queries += 1
+            if ex.feasible(o.pc, after != flag):
+                v.fail("n=%d: after Block::on_chain_reorganization(.., flag) the block's in_longest_chain differs from flag" % n)
+                continue
+            calls = [e for e in o.events if e[0] == "call" and re.search(r"Transaction::on_chain_reorganization$", e[1])]
+            if len(calls) != n:
+                v.fail("n=%d: %d of the block's transactions are applied / reverted" % (n, len(calls)))
+                continue
+            bad = False
+            for c in calls:
+                f = c[2][2]
+                f = f if z3.is_bool(f) else (f.bv != 0)
+                v.queries += 1
+                if ex.feasible(o.pc, f != flag):
+                    bad = True
+            if bad:
+                v.fail("n=%d: a transaction is applied / reverted with a flag other than the block's" % n)
+                continue
+            ok += 1
+    v.covers_total += 1
+    v.covers_sat += 1 if ok else 0
